@@ -353,6 +353,23 @@ class Model:
             if moved and moved[0][0] >= 0.5 and (len(moved) == 1 or moved[0][0] > moved[1][0]):
                 self._aliases[q] = moved[0][1]
                 self.moved[q] = moved[0][1]
+                continue
+            # ... or one level deeper: wrapped into a new factory function of the same parent that binds its leading parameters
+            # (`make(kind)` returning `run(graph_state, timings)` instead of functools.partial(run, kind))
+            want_ps = [x for x in kparams[q] if x not in ("self", "cls")]
+            deeper = []
+            for n in new:
+                fi = self.functions[n]
+                if n in self._aliases.values() or not n.startswith(parent_now + ".") or n.count(".") != q.count(".") + 1 or fi.parent in kset:
+                    continue
+                ps = [x for x in params(fi) if x not in ("self", "cls")]
+                if not ps or want_ps[len(want_ps) - len(ps):] != ps:
+                    continue
+                fp = set(fingerprint(fi.node))
+                deeper.append((len(ref & fp) / max(1, len(ref | fp)), n))
+            deeper.sort(reverse=True)
+            if deeper and deeper[0][0] >= 0.5 and (len(deeper) == 1 or deeper[0][0] > deeper[1][0]):
+                self._aliases[q] = deeper[0][1]
         return self._aliases
 
     def cls(self, qualname: str) -> ClassInfo:
